@@ -3,19 +3,23 @@ from .. import tlc
 from ..common import Machinery
 
 
-def cfg(atomic, single, callers=2, unsol=2, m=4, conns=2, late="FALSE"):
-    return (f"SPECIFICATION Spec\nCONSTANTS AtomicCounter = {atomic}\n SingleDispatcher = {single}\n LateReplies = {late}\n NC = {callers}\n"
+def cfg(atomic, single, callers=2, unsol=2, m=4, conns=2, late="FALSE", sec="TRUE"):
+    return (f"SPECIFICATION Spec\nCONSTANTS AtomicCounter = {atomic}\n SingleDispatcher = {single}\n LateReplies = {late}\n SecondaryOnly = {sec}\n NC = {callers}\n"
             f" NU = {unsol}\n M = {m}\n MaxConn = {conns}\nINVARIANT DistinctOutstanding\nINVARIANT OwnReplyOnly\n"
-            "INVARIANT OneAtATime\nINVARIANT InOrderOnce\n")
+            "INVARIANT OneAtATime\nINVARIANT InOrderOnce\nINVARIANT NothingSwallowed\n")
 
 
 def check(ctx, wd):
-    big = dict(callers=3, unsol=2, m=4) if ctx.quick else dict(callers=3, unsol=3, m=5)
+    big = dict(callers=3, unsol=1, m=4) if ctx.quick else dict(callers=3, unsol=2, m=4)
     r = tlc.run("Transactions", cfg_text=cfg("TRUE", "TRUE", **big), workdir=wd, what="tx_model", timeout=2400)
     tlc.require_ok(r, "Transactions")
     tlc.require_covered(r, ["CallInc", "CallRegister", "CallSend", "CallGot", "CallTimeout", "PeerReply",
-                            "PeerUnsol", "DtTake", "DtRoute", "DtDeliverEnd", "Reconnect"])
-    ctx.add_tlc(r, "transaction layer as coded (locked counter, one dispatcher): all interleavings")
+                            "PeerUnsol", "PeerCollide", "DtTake", "DtRoute", "DtDeliverEnd", "Reconnect"])
+    ctx.add_tlc(r, "transaction layer as coded (locked counter, one dispatcher, replies are secondaries): all interleavings")
+    wide = dict(callers=2, unsol=3, m=4) if ctx.quick else dict(callers=2, unsol=3, m=5)
+    rw = tlc.run("Transactions", cfg_text=cfg("TRUE", "TRUE", **wide), workdir=wd, what="tx_model_wide", timeout=2400)
+    tlc.require_ok(rw, "Transactions (more unsolicited / colliding primaries)")
+    ctx.add_tlc(rw, "the same with two callers and three primaries of the peer (plain or carrying the system bytes of an open request)")
     small = dict(callers=2, unsol=2, m=4) if ctx.quick else dict(callers=3, unsol=2, m=4)
     rl = tlc.run("Transactions", cfg_text=cfg("TRUE", "TRUE", late="TRUE", **small), workdir=wd, what="tx_model_late", timeout=2400)
     tlc.require_ok(rl, "Transactions (late replies)")
@@ -27,6 +31,11 @@ def check(ctx, wd):
     r3 = tlc.run("Transactions", cfg_text=cfg("TRUE", "FALSE"), workdir=wd, what="tx_model_two_dispatchers", timeout=2400,
                  expect_error=True)
     ctx.add_tlc(r3, "regression witness: a second dispatcher after reconnect -> overlapping / reordered hand-over")
+    r4 = tlc.run("Transactions", cfg_text=cfg("TRUE", "TRUE", sec="FALSE"), workdir=wd, what="tx_model_route_by_sys_only", timeout=2400,
+                 expect_error=True)
+    ctx.add_tlc(r4, "regression witness: routing by system bytes alone -> a primary of the peer that carries the system bytes of an open request is taken as its reply")
+    if r4.error_kind != "invariant":
+        raise Machinery(f"Transactions regression witness (routing by system bytes only) no longer fails ({r4.error_kind})")
     if r2.error_kind != "invariant" or r3.error_kind != "invariant":
         raise Machinery("Transactions regression witnesses no longer fail: the model lost its teeth "
                         f"({r2.error_kind}, {r3.error_kind})")
